@@ -814,6 +814,142 @@ def run_large(ctx, mods, case):
     return what is None
 
 
+# ---- multi-process histories -------------------------------------------------
+
+MP_KINDS = ['builtins', 'helper-plain', 'helper-dataclass', 'helper-enum', 'helper-namedtuple',
+            'helper-nested', 'helper-slots', 'helper-listsub', 'helper-reduce', 'helper-function',
+            'helper-submodule', 'dataset', 'dataset-nobins', 'testresult-equal', 'testresult-student',
+            'ndarray', 'npscalar', 'stdlib']
+MP_READERS = [{'api': 'read_env'}, {'api': 'from_file'},
+              {'api': 'read_env', 'preimport': ['numpy']},
+              {'api': 'read_env', 'preimport': ['valjean.eponine.dataset', 'decimal']},
+              {'api': 'from_file', 'preimport': ['c14_job_pkg']}]
+
+
+def gen_mp_case(rng, ncases, nreaders):
+    cases = []
+    for i in range(ncases):
+        tasks = []
+        for j in range(rng.choice([1, 2, 3, 4])):
+            kinds = [MP_KINDS[(i * 5 + j * 3 + k) % len(MP_KINDS)] if k == 0 else rng.choice(MP_KINDS)
+                     for k in range(rng.choice([1, 1, 2, 3]))]
+            tasks.append({'name': f'task{j}', 'status': rng.choice([3, 3, 3, 3, 4, 1, 5]),
+                          'outdir': rng.random() < 0.9,
+                          'payloads': [[kind, rng.getrandbits(30)] for kind in kinds],
+                          'fault': rng.choice(['none'] * 5 + ['cut', 'delete', 'empty']),
+                          'frac': rng.random()})
+        cases.append({'id': str(i), 'tasks': tasks})
+    return {'kind': 'mp', 'cases': cases, 'readers': MP_READERS[:nreaders]}
+
+
+def run_mp(ctx, mods, case):
+    '''oracle only: the files are written by one interpreter and read by fresh ones that
+    have imported only the reading API (plus, for some, part of what the payloads need)'''
+    import subprocess
+    import c14_child
+    base = os.path.join(ctx.wd(), 'mp')
+    shutil.rmtree(base, ignore_errors=True)
+    jobdir = os.path.join(base, 'job')
+    os.makedirs(jobdir)
+    c14_child.make_helpers(jobdir)
+    spec = {'filename': FILENAME, 'cases': []}
+    for sub in case['cases']:
+        spec['cases'].append(dict(sub, root=os.path.join(base, 'out' + sub['id'])))
+    env = dict(os.environ, PYTHONPATH=common.REPO + os.pathsep + jobdir, PYTHONDONTWRITEBYTECODE='1')
+    script = os.path.abspath(c14_child.__file__)
+
+    def child(side, spec_, tag):
+        spath, opath = os.path.join(base, tag + '.spec.json'), os.path.join(base, tag + '.out.json')
+        with open(spath, 'w') as fil:
+            json.dump(spec_, fil)
+        proc = subprocess.Popen([sys.executable, '-W', 'ignore', script, side, spath, opath], env=env,
+                                cwd=base, stdout=subprocess.PIPE, stderr=subprocess.STDOUT, text=True)
+        return proc, opath
+
+    def finish(proc, opath, what):
+        try:
+            log, _ = proc.communicate(timeout=300)
+        except subprocess.TimeoutExpired:
+            proc.kill()
+            log = 'timeout'
+        if proc.returncode != 0 or not os.path.exists(opath):
+            ctx.oracle_failure(f'{what} process fails :: {log[-600:]}', case, key='mp-child-fails')
+            return None
+        with open(opath) as fil:
+            return json.load(fil)
+
+    written = finish(*child('write', spec, 'writer'), 'the writing')
+    if written is None:
+        return False
+    # between the two runs: crashes cut, empty or remove some files
+    intact = {}
+    for sub in spec['cases']:
+        for task in sub['tasks']:
+            path = os.path.join(sub['root'], task['name'], FILENAME)
+            ok = task['outdir'] and os.path.isfile(path)
+            if task['outdir'] and not ok:
+                ctx.oracle_failure(f'write_env (in its own process) does not write the file of a task '
+                                   f'with an output directory :: {task}', case, key='write_env-missing-file')
+            if ok and task['fault'] != 'none':
+                if task['fault'] == 'delete':
+                    os.unlink(path)
+                else:
+                    size = os.path.getsize(path)
+                    os.truncate(path, 0 if task['fault'] == 'empty' else min(int(task['frac'] * size), size - 1))
+                ok = False
+                ctx.count('mp_fault_' + task['fault'])
+            intact[(sub['id'], task['name'])] = ok
+    procs = [(reader, child('read', dict(spec, **reader), f'reader{k}'))
+             for k, reader in enumerate(case['readers'])]
+    good = True
+    for reader, (proc, opath) in procs:
+        got = finish(proc, opath, f'the reading ({reader})')
+        if got is None:
+            good = False
+            continue
+        ctx.count('mp_reader_' + reader['api'] + ('_pre_' + '+'.join(reader['preimport'])
+                                                  if reader.get('preimport') else ''))
+        unexpected = [m for m in got['loaded_before'] if m not in
+                      ('numpy', 'decimal', 'datetime', 'fractions', 'array', 'uuid', 'ipaddress')
+                      and not any(m == p or m.startswith(p + '.') or p.startswith(m + '.')
+                                  for p in reader.get('preimport', []))]
+        if unexpected:
+            ctx.count('mp_reader_had_payload_modules_loaded')
+        for sub in spec['cases']:
+            res = got['cases'][sub['id']]
+            if 'raise' in res:
+                ctx.oracle_failure(f'reading in a fresh process raises {res["raise"][:120]} :: reader {reader}, '
+                                   f'history {json.dumps(sub)[:300]}', dict(case, failing=sub['id']),
+                                   key='mp-read-raises')
+                good = False
+                continue
+            for task in sub['tasks']:
+                name = task['name']
+                want = intact[(sub['id'], name)] and (task['status'] == 3 or reader['api'] == 'from_file')
+                ctx.count('mp_entries_checked')
+                if want and name not in res['entries']:
+                    ctx.oracle_failure(
+                        f'a fresh process does not get back the DONE entry of a task whose file is intact '
+                        f':: task {name} with payloads {[k for k, _ in task["payloads"]]}, reader {reader} '
+                        f'(payload modules loaded before the read: {got["loaded_before"]}), history '
+                        f'{json.dumps(sub)[:200]}', dict(case, failing=sub['id']), key='mp-loses-done')
+                    good = False
+                elif want and res['entries'][name] != written[sub['id']][name]:
+                    ctx.oracle_failure(
+                        f'a fresh process reads a different entry than was written :: task {name}: '
+                        f'{res["entries"][name][:200]} vs {written[sub["id"]][name][:200]}, reader {reader}',
+                        dict(case, failing=sub['id']), key='mp-entry-differs')
+                    good = False
+                elif not want and name in res['entries']:
+                    ctx.oracle_failure(
+                        f'a fresh process reports a task that was not DONE or whose file is damaged '
+                        f':: task {name} ({task["fault"]}, status {task["status"]}), reader {reader}',
+                        dict(case, failing=sub['id']), key='mp-reports-not-done')
+                    good = False
+    shutil.rmtree(base, ignore_errors=True)
+    return good
+
+
 # ---- file-system histories -------------------------------------------------
 
 SPECIAL_NAMES = ['.hidden', '.', 'a[b]c', '[ab]', '[!x]', 'q?x', '?', 'st*r', '*', 'with space', ' lead',
@@ -1284,6 +1420,8 @@ def gen_cases(ctx):
         k += 1
     for mode in ('tmpdir-other-fs', 'tmpdir-missing'):
         cases.append({'kind': 'dec', 'env': tiny, 'proto': 4, 'variant': 'plain', 'envmode': mode})
+    # --- written by one process, read by fresh ones (oracle only)
+    cases.append(gen_mp_case(rng, 20 if quick else 200, 3 if quick else 5))
     # --- large entries (oracle only): > 64 KiB (several frames), > 1 MiB
     mib = 2 ** 20
     large = [('bytes', mib + 4096), ('ints', mib + mib // 4), ('str', 300000)]
@@ -1354,6 +1492,8 @@ def run_case(ctx, mods, case, out, enc_cases):
         return run_caught(ctx, mods, case, out)
     if kind == 'fs':
         return run_fs(ctx, mods, case, out)
+    if kind == 'mp':
+        return run_mp(ctx, mods, case)
     if kind == 'large':
         return run_large(ctx, mods, case)
     if kind == 'corruptgen':
@@ -1397,7 +1537,9 @@ def run(ctx):
                 'output root and vice versa, missing, a regular file) and path spellings (roots and task '
                 'names with glob metacharacters, leading dots, spaces, unicode, 200 characters; relative to a '
                 'changed current directory, trailing slash, .. components); '
-                'entries of 0.3-5 MiB cut at the first/last 32 bytes, frame boundaries and random offsets; '
+                'environments with payload objects of job-helper, valjean (Dataset, test results), numpy and '
+                'stdlib classes written by one interpreter and read by fresh ones that imported only the reading '
+                'API; entries of 0.3-5 MiB cut at the first/last 32 bytes, frame boundaries and random offsets; '
                 'corrupted files through the real from_file.  Non-trivial: an environment with at least one entry / a history with a '
                 'damaged file and an intact DONE entry; distinct by case content')
     cases = gen_cases(ctx)
